@@ -79,6 +79,10 @@ def with_placeholders(w):
             d[j] = E
             out.append(d)
         out += [[E], [E, E], [E] + cp(w), cp(w) + [E], [E] + cp(w) + [E], [Nil]]
+        # doubled markers at an edge, a marker at both edges and inside
+        out += [[E, E] + cp(w), cp(w) + [E, E], [E, E] + cp(w) + [E, E], [E, E, E]]
+        if len(w) >= 2:
+            out.append([E] + cp(w[:1]) + [E] + cp(w[1:]) + [E])
     if isinstance(w, dict):
         for k in w:
             d = cp(w)
